@@ -12,3 +12,4 @@ import PvModel.Props.C16
 #print axioms Pv.C16_answer_sound
 #print axioms Pv.C16_run_exact
 #print axioms Pv.C16_run_constraints_exact
+#print axioms Pv.C16_program_sound
